@@ -19,6 +19,9 @@ pub struct Wire {
     pub waker: Option<Waker>,
     /// observable events: ("read", n) | ("write", bytes) | ("end")
     pub events: Vec<(String, Vec<u8>, usize)>,
+    /// Some(n): the client is slow - the socket takes n more octets and then says "not now" until the harness makes room again
+    pub room: Option<usize>,
+    pub wwaker: Option<Waker>,
 }
 pub struct CtlSock(pub Arc<Mutex<Wire>>);
 
@@ -43,10 +46,19 @@ impl AsyncRead for CtlSock {
     }
 }
 impl AsyncWrite for CtlSock {
-    fn poll_write(self: Pin<&mut Self>, _: &mut Context<'_>, buf: &[u8]) -> Poll<std::io::Result<usize>> {
+    fn poll_write(self: Pin<&mut Self>, cx: &mut Context<'_>, buf: &[u8]) -> Poll<std::io::Result<usize>> {
         // a socket with little room: at most 5 bytes are taken per call (short writes are ordinary socket behaviour)
-        let n = buf.len().min(5);
-        self.0.lock().unwrap().events.push(("write".into(), buf[..n].to_vec(), n));
+        let mut w = self.0.lock().unwrap();
+        let mut n = buf.len().min(5);
+        if let Some(room) = w.room {
+            if room == 0 {
+                w.wwaker = Some(cx.waker().clone());
+                return Poll::Pending;
+            }
+            n = n.min(room);
+            w.room = Some(room - n);
+        }
+        w.events.push(("write".into(), buf[..n].to_vec(), n));
         Poll::Ready(Ok(n))
     }
     fn poll_flush(self: Pin<&mut Self>, _: &mut Context<'_>) -> Poll<std::io::Result<()>> {
@@ -64,6 +76,8 @@ impl Drop for CtlSock {
 }
 
 const SESSION: u16 = 101; // model session 1
+// the room a slow client leaves in the socket between two refills (None: all the room in the world)
+thread_local! { pub static ROOM: std::cell::Cell<Option<usize>> = const { std::cell::Cell::new(None) }; }
 const N_ITEMS: usize = 3;
 
 fn query_bytes(q: &Value) -> Vec<u8> {
@@ -235,7 +249,20 @@ fn run_script(queries: &Value, script: &[(String, usize)], flush_rest: bool, ord
             }
             flush_out(&mut pending_out, events, all_out, qi_seen);
         };
-        let settle = || async { for _ in 0..12 { tokio::task::yield_now().await; } };
+        let room = ROOM.with(|r| r.get());
+        w2.lock().unwrap().room = room;
+        // let the server run until it rests; a slow client's socket is given room again (the same small amount) as long as the
+        // server makes use of it
+        let settle = || async {
+            for _ in 0..12 { tokio::task::yield_now().await; }
+            if let Some(r) = room {
+                for _ in 0..6000 {
+                    let waiting = { let mut w = w2.lock().unwrap(); let blocked = w.wwaker.is_some(); w.room = Some(r); if let Some(wk) = w.wwaker.take() { wk.wake(); } blocked };
+                    if !waiting { break; }
+                    for _ in 0..12 { tokio::task::yield_now().await; }
+                }
+            }
+        };
         settle().await;
         for (act, n) in script {
             match act.as_str() {
@@ -286,6 +313,8 @@ pub fn replay(args: &[String]) {
         let script: Vec<(String, usize)> = c["script"].as_array().unwrap().iter().map(|a| (a[0].as_str().unwrap().to_string(), a[1].as_u64().unwrap() as usize)).collect();
         let closes = script.iter().any(|a| a.0 == "close");
         let n_notify = script.iter().filter(|a| a.0 == "notify").count();
+        // every third case the client is slow: the socket has room for 1..11 octets at a time (less than a Serial Notify)
+        ROOM.with(|r| r.set(if ci % 3 == 2 { Some(1 + (ci / 3) % 11) } else { None }));
         // the source's router key has key information of the lengths from 1 to 1300 octets in turn
         crate::rtrsession::KEYINFO_LEN.store(1 + (ci * 13) % 1300, std::sync::atomic::Ordering::SeqCst);
         // the source hands out its items in either order (every other case: the items version 0 and 1 cannot carry come first)
